@@ -358,4 +358,51 @@ Proof.
   unfold runs in H. rewrite H. reflexivity.
 Qed.
 
+(** ** Instances, by computation
+
+    A prototype with a zero-width record, three points, and a layout with
+    index and ignored packets between the data packets, empty chunks, a data
+    packet of empty chunks only, values straddling packets, and a record whose
+    bytes all arrive in the last data packet. *)
+Module QrInstance.
+  Definition proto := [TSingle; TInteger 0 7; TInteger 5 5; TDouble].
+  Definition points :=
+    [[VSingle 1; VInteger 3; VInteger 5; VDouble 77]; [VSingle 2; VInteger 7; VInteger 5; VDouble 78];
+     [VSingle 3; VInteger 1; VInteger 5; VDouble 79]].
+  Definition s0 := spec_stream_bytes TSingle (column 0 points).
+  Definition s1 := spec_stream_bytes (TInteger 0 7) (column 1 points).
+  Definition s3 := spec_stream_bytes TDouble (column 3 points).
+  Definition lay : layout :=
+    [SIndex 16; SData [take 5 s0; []; []; take 3 s3]; SIgnored 4; SData [[]; []; []; []]; SIgnored 8;
+     SData [drop 5 s0; s1; []; drop 3 s3]; SIndex 20].
+  Definition log_of (pre post : list N) : list N :=
+    pre ++ encode_section (phys_of_log (len pre + 32)) lay ++ post.
+  Definition run (pre post : list N) : res (list (list rvalue)) :=
+    let log := log_of pre post in
+    snd (rrun_spec log (rbind (raw_new (phys_of_log (len pre)) (len points) proto)
+                              (fun it => raw_collect 4 (len log) it [])) 0).
+End QrInstance.
+
+(** The hypotheses of the theorem are satisfiable (section across a page boundary). *)
+Example qr_decodes_any_layout_instance :
+  QrInstance.run (repeat 9 1000%nat) (repeat 7 876%nat) = Ok QrInstance.points.
+Proof.
+  unfold QrInstance.run. cbv zeta.
+  apply (qr_decodes_any_layout QrInstance.proto QrInstance.points QrInstance.lay
+           (repeat 9 1000%nat) (repeat 7 876%nat)); try (vm_compute; reflexivity).
+  discriminate.
+Qed.
+
+(** Without [len log mod 1020 = 0] the statement is false: all other
+    hypotheses hold and every seek is rejected. *)
+Example qr_decodes_any_layout_needs_whole_payloads :
+  let pre := [9; 9; 9; 9] in let post := [1] in
+  scene_ok QrInstance.proto QrInstance.points = true /\
+  legal QrInstance.proto QrInstance.points QrInstance.lay = true /\
+  len pre mod 4 = 0 /\ post <> [] /\ len (QrInstance.log_of pre post) = 169 /\
+  QrInstance.run pre post = Err ERead.
+Proof.
+  cbv zeta. repeat split; try (vm_compute; reflexivity). discriminate.
+Qed.
+
 Print Assumptions qr_decodes_any_layout.
